@@ -22,11 +22,17 @@ struct Cb
 	bool operator == (const Cb & o) const { return id == o.id; }
 };
 
+//   -DVH_MAP=1 std::map (default here)   =2 the library's own choice (std::unordered_map for an int key)
+#ifndef VH_MAP
+#define VH_MAP 1
+#endif
 struct Policies
 {
 	using Threading = vsched::VThreading;
 	using Callback = Cb;
+#if VH_MAP == 1
 	template <typename Key, typename T> using Map = std::map<Key, T>;
+#endif
 };
 using D = eventpp::EventDispatcher<int, void (int), Policies>;
 
